@@ -26,21 +26,29 @@ def optRatJson : Option Rat → Json
 
 def unmodelled : Json := Json.mkObj [("out", Json.str "unmodelled")]
 
+example (h : Net) (m : Nat) (x : Bool) :
+    editSimpliciality h m x = (simplicialEditDistance h m x true).map Score.oneMinus := rfl
+example (h : Net) (m : Nat) (x : Bool) :
+    faceEditSimpliciality h m x = (meanFaceEditDistance h m x true).map (1 - ·) := rfl
+
 def simpliciality (j : Json) : Json :=
   match (getField? j "net").bind netOfJson?, getNat? j "min_size", getBool? j "exclude_min_size" with
   | some h, some m, some x =>
     if !(wfB h && orderable h.nodes && noEmptyEdge h) then unmodelled else
+    -- `edit_simpliciality` / `face_edit_simpliciality` are by definition `1 - distance`; the distance is computed once
+    let sedN := simplicialEditDistance h m x true
+    let mfedN := meanFaceEditDistance h m x true
     Json.mkObj [
       ("out", "ok"),
       ("maximal", match maximalEdges h with
         | none => Json.str "err"
         | some mx => idsToJson (mx.map (·.1))),
-      ("sed_norm", optScoreJson (simplicialEditDistance h m x true)),
+      ("sed_norm", optScoreJson sedN),
       ("sed_raw", optScoreJson (simplicialEditDistance h m x false)),
-      ("es", optScoreJson (editSimpliciality h m x)),
-      ("mfed_norm", optRatJson (meanFaceEditDistance h m x true)),
+      ("es", optScoreJson (sedN.map Score.oneMinus)),
+      ("mfed_norm", optRatJson mfedN),
       ("mfed_raw", optRatJson (meanFaceEditDistance h m x false)),
-      ("fes", optRatJson (faceEditSimpliciality h m x)),
+      ("fes", optRatJson (mfedN.map (1 - ·))),
       ("sf", scoreJson (simplicialFraction h m x)),
       ("spec_maximal", idsToJson ((specMaximal h).map (·.1))),
       ("spec_sed_raw", natJson (specSED h m x)),
